@@ -208,6 +208,15 @@ def oracle (fn : String) (args : List String) (implOut : List String) : Option S
   | "fat.alloc", [b, fh, p, h, t] => do
     let bits ← natOf b; let f ← fatOf fh; let p ← optNatOf p; let h ← optNatOf h; let t ← natOf t
     allocOracle bits f p h t implOut
+  | "fat.find_free", [_, _, _, e] => do
+    -- C10 "padding entries past the last cluster are never handed out": the search over `[start, end)` (callers pass
+    -- end = total + 2) must not answer an entry at or beyond `end`, whatever the table holds there
+    let e ← natOf e
+    match implOut with
+    | [cs] => (match cs.toNat? with
+        | some c => if e ≤ c then some s!"C10 padding-handed-out find_free returned={c} end={e}" else none
+        | none => none)
+    | _ => none
   | "fat.free", [b, fh, c, _] => do
     let bits ← natOf b; let f ← fatOf fh; let c ← natOf c
     chainOracle false bits f c implOut
